@@ -959,11 +959,14 @@ class VizierServicer(vizier_service_pb2_grpc.VizierServiceServicer):
       grpc_util.handle_exception(e, context)
 
     try:
-      self.datastore.update_metadata(
-          request.name,
-          [x.metadatum for x in request.delta if not x.HasField('trial_id')],
-          [x for x in request.delta if x.HasField('trial_id')],
-      )
+      # Read-modify-write RPCs (CompleteTrial, AddTrialMeasurement, StopTrial,
+      # SetStudyState) hold this lock while they rewrite a whole trial / study.
+      with self._study_name_to_lock[request.name]:
+        self.datastore.update_metadata(
+            request.name,
+            [x.metadatum for x in request.delta if not x.HasField('trial_id')],
+            [x for x in request.delta if x.HasField('trial_id')],
+        )
     except KeyError as e:
       return vizier_service_pb2.UpdateMetadataResponse(
           error_details=';'.join(e.args)
